@@ -732,6 +732,61 @@ func genReentrant(r *hx.Rng) *gScen {
 	return g.sc
 }
 
+// a LAZY cycle entered by a lookup after the start: H (substituted early and again after initialization — or only one of the
+// two) and its partner P, whose Init fails the first time. H is looked up until it is created.
+func genRetryCycle(r *hx.Rng, mode int) *gScen {
+	g := newBuilder(r)
+	h := g.addNode([]int{5, 7, 12}[r.Intn(3)], true)
+	p := g.addNode([]int{5, 7, 12}[r.Intn(3)], true)
+	g.sc.nodes[h].cust, g.sc.nodes[p].cust = "a-h", "b-p"
+	g.sc.nodes[h].slots["A0"] = "wb-p"
+	g.sc.nodes[p].slots["A0"] = "wa-h"
+	g.sc.nodes[h].flt = fltLookup
+	g.sc.nodes[p].flt = fltInitOnce
+	switch mode {
+	case 0:
+		g.sc.nodes[h].early, g.sc.nodes[h].after = 1, 2 // the known finding's shape
+	case 1:
+		g.sc.nodes[h].early = 1
+	case 2:
+		g.sc.nodes[h].early, g.sc.nodes[h].after = 1, 1
+	case 3:
+		g.sc.nodes[h].after = 2
+	}
+	if r.P(1, 2) {
+		g.addNode(g.randType(func(u utInfo) bool { return len(u.ifs) > 0 && !u.pp && !u.lazy && !u.runner }), r.P(1, 3))
+	}
+	return g.sc
+}
+
+// a component G on a cycle with a partner (the partner receives G's early reference — a substitute) whose Init looks up an
+// OPTIONAL lazy collaborator that fails to start and absorbs the error: G's own creation goes on and must publish the very
+// version its partner was handed
+func genTolerated(r *hx.Rng) *gScen {
+	g := newBuilder(r)
+	x := g.addNode(g.randType(func(u utInfo) bool { return !u.pp && !u.lazy && len(u.ifs) > 0 }), true)
+	p := g.addNode(g.randType(func(u utInfo) bool { return !u.pp && !u.lazy }), true)
+	lz := g.addNode([]int{5, 7, 12}[r.Intn(3)], true)
+	g.sc.nodes[lz].flt = []int{fltInit, fltAPS, fltBefore}[r.Intn(3)]
+	// x is created first (name order): force names
+	g.sc.nodes[x].cust, g.sc.nodes[p].cust, g.sc.nodes[lz].cust = "a-x", "b-p", "c-lz"
+	g.edgeByName(x, p, false)
+	g.edgeByName(p, x, false)
+	g.sc.nodes[x].fetch = "~c-lz"
+	switch r.Intn(4) {
+	case 0, 1:
+		g.sc.nodes[x].early = 1
+	case 2:
+		g.sc.nodes[x].early, g.sc.nodes[x].after = 1, 1
+	}
+	if r.P(1, 2) { // a late holder of x
+		h := g.addNode(g.randType(func(u utInfo) bool { return !u.pp && !u.lazy }), true)
+		g.sc.nodes[h].cust = "d-h"
+		g.edgeByName(h, x, false)
+	}
+	return g.sc
+}
+
 // many components and a definition scanner that fails for every one of them (more failures than any worker pool has slots)
 func genBigScan(r *hx.Rng) *gScen {
 	g := newBuilder(r)
@@ -895,6 +950,10 @@ func graphCorpus(w *hx.Writer) {
 		emitGraph(genSelf(r.Fork()), []string{"corpus", "self"}, w)
 		emitGraph(genArrayCycle(r.Fork()), []string{"corpus", "arraycycle"}, w)
 		emitGraph(genAllOptional(r.Fork()), []string{"corpus", "alloptional"}, w)
+		if i < 12 {
+			emitGraph(genTolerated(r.Fork()), []string{"corpus", "tolerated"}, w)
+			emitGraph(genRetryCycle(r.Fork(), i%5), []string{"corpus", "retrycycle"}, w)
+		}
 	}
 }
 
